@@ -9,6 +9,14 @@ play.  `Float` comparison is opaque to the kernel, so the order facts about `flt
 values (irreflexive, transitive) are a HYPOTHESIS of the float theorems (`StrictOn S fltLt`), not
 an axiom; for the integer index bounds everything is proved outright.  The correspondence suite
 `writer` compares the XML numbers byte for byte and its oracle recomputes the bounds independently.
+
+NaN (crate repair "NaN is not a bound"): `update_min`/`update_max` return at once for a value that
+cannot be compared with itself.  The float bounds are therefore the folds over the values that are
+NOT NaN (`nonNaN vs = vs.filter (fun v => !fltIsNaN v)`), wherever NaNs occur in the sequence of
+points, the first point included; the theorems below no longer need the POINTS to be free of NaN
+(`S` is fixed to `NotNaN v := fltIsNaN v = false`, only the order facts stay a hypothesis).
+`nan_never_a_bound` and `bounds_order_independent_of_nan` need no hypothesis at all.  Before the
+repair a NaN in the first point stayed as bound for good (`old_first_nan_poisons_min/max`).
 -/
 import E57.Proofs.WriterProps
 namespace E57.C14
@@ -16,8 +24,8 @@ open E57
 
 /-- **Exact bounds after any sequence of accepted points.**  After `PcW.new` and any list of
     `add_point` calls that all succeed, the writer's metadata satisfies `BoundsExact`: each of the
-    twelve float bounds is `foldMin/foldMax fltLt` of the record's values over all points, each of
-    the six index bounds the integer fold, and each bounds structure is present exactly when the
+    twelve float bounds is `foldMin/foldMax fltLt` of the record's NON-NaN values (`nonNaN`) over all
+    points — NaN coordinates may occur anywhere —, each of the six index bounds the integer fold, and each bounds structure is present exactly when the
     prototype contains its attribute group; the record count is the number of points. -/
 theorem bounds_are_exact (pw : PW) (exts : List (String × String)) (guid : String) (proto : Prototype)
     (hpw : pw.Inv) (pw0 : PW) (w0 : PcW) (hnew : PcW.new pw exts guid proto = .ok (pw0, w0))
@@ -34,6 +42,63 @@ theorem fold_min_is_minimum {α : Type} {S : α → Prop} {lt : α → α → Bo
 theorem fold_max_is_maximum {α : Type} {S : α → Prop} {lt : α → α → Bool} (h : StrictOn S lt)
     (vs : List α) (hS : ∀ v ∈ vs, S v) (hne : vs ≠ []) :
     ∃ m, foldMax lt vs = some m ∧ m ∈ vs ∧ ∀ v ∈ vs, lt m v = false := foldMax_spec h vs hS hne
+
+/-- the float bounds kept by the writer: the fold of the repaired `update_min` over ANY doubles is
+    the generic fold over those that are not NaN … -/
+theorem float_fold_skips_nan (vs : List UInt64) :
+    foldMinF vs = foldMin fltLt (nonNaN vs) ∧ foldMaxF vs = foldMax fltLt (nonNaN vs) :=
+  ⟨foldMinF_eq vs, foldMaxF_eq vs⟩
+
+/-- … hence an exact minimum / maximum of the non-NaN values, whatever NaNs stand between them
+    (hypothesis: IEEE `<` is a strict order on the non-NaN doubles; nothing is assumed of `vs`) -/
+theorem float_min_is_minimum (h : StrictOn NotNaN fltLt) (vs : List UInt64) (hne : nonNaN vs ≠ []) :
+    ∃ m, foldMinF vs = some m ∧ m ∈ vs ∧ fltIsNaN m = false ∧
+      ∀ v ∈ vs, fltIsNaN v = false → fltLt v m = false := foldMinF_spec h vs hne
+
+theorem float_max_is_maximum (h : StrictOn NotNaN fltLt) (vs : List UInt64) (hne : nonNaN vs ≠ []) :
+    ∃ m, foldMaxF vs = some m ∧ m ∈ vs ∧ fltIsNaN m = false ∧
+      ∀ v ∈ vs, fltIsNaN v = false → fltLt m v = false := foldMaxF_spec h vs hne
+
+/-- nothing is stored exactly when every value is a NaN -/
+theorem float_bound_absent_iff_all_nan (vs : List UInt64) :
+    (foldMinF vs = none ↔ ∀ v ∈ vs, fltIsNaN v = true) ∧ (foldMaxF vs = none ↔ ∀ v ∈ vs, fltIsNaN v = true) :=
+  ⟨foldMinF_eq_none vs, foldMaxF_eq_none vs⟩
+
+/-- **NaN is never a bound.**  After `new` and any sequence of accepted `add_point` calls — NaN
+    coordinates anywhere, the first point included — none of the twelve float bounds
+    (`PointCloud.floatBounds`: x/y/z min/max, range min/max, elevation min/max, azimuth start/end)
+    is a NaN.  No hypothesis on the order. -/
+theorem nan_never_a_bound (pw : PW) (exts : List (String × String)) (guid : String) (proto : Prototype)
+    (hpw : pw.Inv) (pw0 : PW) (w0 : PcW) (hnew : PcW.new pw exts guid proto = .ok (pw0, w0))
+    (pts : List (List Value)) (pw1 : PW) (w1 : PcW) (hadd : addPoints pts (pw0, w0) = .ok (pw1, w1)) :
+    ∀ o ∈ w1.pc.floatBounds, ∀ b, o = some b → fltIsNaN b = false :=
+  E57.nan_never_a_bound pw exts guid proto hpw pw0 w0 hnew pts pw1 w1 hadd
+
+/-- **The bounds do not depend on where a NaN stands**: inserting a NaN anywhere into the sequence
+    of values of a record (the front included) changes neither fold. -/
+theorem bounds_order_independent_of_nan (l₁ l₂ : List UInt64) (nan : UInt64) (h : fltIsNaN nan = true) :
+    foldMinF (l₁ ++ nan :: l₂) = foldMinF (l₁ ++ l₂) ∧ foldMaxF (l₁ ++ nan :: l₂) = foldMaxF (l₁ ++ l₂) :=
+  E57.bounds_order_independent_of_nan l₁ l₂ nan h
+
+/-- the same on the writer: the accepted sequence with a point whose X is NaN inserted anywhere and
+    the sequence without it end with the same `xMin` and `xMax` -/
+theorem nan_point_moves_no_x_bound (pw : PW) (exts : List (String × String)) (guid : String)
+    (proto : Prototype) (hpw : pw.Inv) (pw0 : PW) (w0 : PcW)
+    (hnew : PcW.new pw exts guid proto = .ok (pw0, w0))
+    (pts₁ pts₂ : List (List Value)) (pt : List Value) (pw1 pw1' : PW) (w1 w1' : PcW)
+    (hadd : addPoints (pts₁ ++ pt :: pts₂) (pw0, w0) = .ok (pw1, w1))
+    (hadd' : addPoints (pts₁ ++ pts₂) (pw0, w0) = .ok (pw1', w1'))
+    (hnan : ∀ v ∈ colVals Value.toF64 .cartesianX proto pt, fltIsNaN v = true) :
+    w1.pc.xMin = w1'.pc.xMin ∧ w1.pc.xMax = w1'.pc.xMax :=
+  E57.nan_point_moves_no_x_bound pw exts guid proto hpw pw0 w0 hnew pts₁ pts₂ pt pw1 pw1' w1 w1' hadd hadd' hnan
+
+/-- OLD behaviour, as documentation (generic `update_min`/`update_max` that take the first value
+    unconditionally): a first value that compares false with everything, as a NaN does, stayed for good -/
+theorem old_first_nan_poisons_min {α : Type} (lt : α → α → Bool) (a : α) (h : ∀ x, lt x a = false)
+    (vs : List α) : foldMin lt (a :: vs) = some a := foldMin_poisoned lt a h vs
+
+theorem old_first_nan_poisons_max {α : Type} (lt : α → α → Bool) (a : α) (h : ∀ x, lt a x = false)
+    (vs : List α) : foldMax lt (a :: vs) = some a := foldMax_poisoned lt a h vs
 
 /-- integer (row / column / return index) bounds are the exact minimum and maximum -/
 theorem index_min_exact (vs : List Int) (hne : vs ≠ []) (m : Int) :
